@@ -1,6 +1,6 @@
 (* C13: single intervention with the default (parent) adjustment set.
    Part A (finite domain, on the model's [query] itself): for every DAG on <= 3 binary nodes, every CPD table
-   with entries on the grid {1/4, 1/2, 3/4}, every do-variable and value, every admissible query set:
+   with entries on the grid {1/4, 2/3}, every do-variable and value, every admissible query set:
    query = truncated factorisation.
    Part B (algebraic, unbounded): the adjustment formula over the parents equals the truncated
    factorisation; see the section below for the exact hypotheses. *)
@@ -14,7 +14,7 @@ Local Open Scope Qc_scope.
 (* ------------------------------------------------------------------ Part A *)
 (* all columns (p, 1-p) with p on the grid, all tables with [k] columns; a binary CPD table over
    (v :: parents) is row-major: first the row of state 0, then the row of state 1 *)
-Definition grid : list Qc := [q 1 4; q 1 2; q 3 4].
+Definition grid : list Qc := [q 1 4; q 2 3].
 Fixpoint rows (k : nat) : list (list Qc) :=
   match k with
   | O => [[]]
